@@ -30,7 +30,8 @@ def floors(tier):
     return {"evaluations": 1500 if q else 20000, "distinct_nontrivial": 150 if q else 2500, "kind:synth": 900 if q else 12000,
             "kind:curated": 300 if q else 5000, "kind:corpus": 40 if q else 200, "with_load_node": 300 if q else 4000,
             "no_dependency": 20 if q else 300, "chain_ge_3": 300 if q else 4000, "leading_load": 30 if q else 400,
-            "last_is_most_expensive": 100 if q else 1500, "monitor:get_critical_path": 4000 if q else 55000}
+            "last_is_most_expensive": 100 if q else 1500, "monitor:get_critical_path": 4000 if q else 55000, "line_number_gaps": 300 if q else 4000,
+            "report_cp_column_checked": 1200 if q else 18000}
 
 
 def plan(tier, seed):
@@ -46,6 +47,30 @@ def plan(tier, seed):
     return specs
 
 
+def gappy(rng, lines):
+    """Kernel text; in a third of the cases with empty lines in front of / inside the kernel, so that line numbers have gaps
+    (parse_file skips empty lines but keeps counting)."""
+    if rng.random() < 0.35:
+        out = []
+        for l in lines:
+            while rng.random() < 0.3:
+                out.append("")
+            out.append(l)
+        return "\n".join(out) + "\n"
+    return "\n".join(lines) + "\n"
+
+
+def report_cp_marks(forms, dg, frontend):
+    """CP column of the combined view of the text report: {line number: value} of the marked lines."""
+    from .. import report_parse
+
+    text = frontend.full_analysis(forms, dg, ignore_unknown=True)
+    rep = report_parse.parse_report(text)
+    if rep["problems"] or any(r["problems"] for r in rep["rows"]):
+        return None
+    return {r["line_number"]: float(r["cp"]) for r in rep["rows"] if r["cp"] != ""}
+
+
 def graph_data(forms, dg):
     nodes = list(dg.dg.nodes)
     edges = {(u, v): float(d["latency"]) for u, v, d in dg.dg.edges(data=True)}
@@ -56,7 +81,29 @@ def graph_data(forms, dg):
     return nodes, edges, lat, wo
 
 
-def judge(forms, dg, R, case):
+def judge(forms, dg, R, case, frontend=None):
+    nt = judge_calls(forms, dg, R, case)
+    if frontend is not None:
+        try:
+            marks = report_cp_marks(forms, dg, frontend)
+        except Exception as e:  # noqa
+            R.exception(e, case, prefix="report/")
+            return nt
+        if marks is None:
+            R.count("report_not_parsed")
+            return nt
+        R.count("report_cp_column_checked")
+        cp = dg.get_critical_path()
+        want = {x.line_number: float(x.latency_cp) for x in cp}
+        if set(marks) != set(want):
+            R.violation("report/marked-lines-are-not-the-critical-path", "CP column marks lines %s, critical path is %s (zero-latency members %s)"
+                        % (sorted(marks), sorted(want), sorted(l for l, v in want.items() if v == 0)), case)
+        elif any(abs(marks[l] - want[l]) > 0.05 + 1e-9 for l in want):
+            R.violation("report/cp-cell-value", "CP column %s, critical path latencies %s" % (marks, want), case)
+    return nt
+
+
+def judge_calls(forms, dg, R, case):
     """The critical path is asked for several times, as the real front end does (text report, then dict / YAML, then graph
     export): every answer is judged, not only the first one."""
     nt = False
@@ -195,7 +242,7 @@ def synth_case(isa, vocab, path, ipath, mseed, kseed, R, sample=True):
     else:
         kernel_ast = D.rand_kernel(krng, isa, vocab, n)
     flags = krng.random() < 0.3
-    text = "\n".join(i["text"] for i in kernel_ast) + "\n"
+    text = gappy(krng, [i["text"] for i in kernel_ast])
     case = {"kind": "synth", "isa": isa, "model_seed": mseed, "kernel_seed": kseed, "kernel": text, "flags": flags}
     try:
         with time_limit(60):
@@ -208,7 +255,11 @@ def synth_case(isa, vocab, path, ipath, mseed, kseed, R, sample=True):
         R.exception(e, case)
         R.case()
         return
-    nt = judge(forms, dg, R, case)
+    from osaca.frontend import Frontend
+
+    nt = judge(forms, dg, R, case, frontend=Frontend(path_to_yaml=path))
+    if any(b.line_number - a.line_number > 1 for a, b in zip(forms, forms[1:])) or forms[0].line_number > 1:
+        R.count("line_number_gaps")
     R.case(digest(text + str(flags)), nontrivial=nt)
     R.count("kind:synth")
     if sample and nt:
@@ -229,7 +280,7 @@ def curated_case(arch, isa, vocab, kseed, R):
     krng = random.Random(kseed)
     pool = D.Pool(krng, isa)
     kernel_ast = [D.instantiate_curated(krng, isa, krng.choice(vocab), pool) for _ in range(krng.choice([1, 2, 3, 4, 6, 8, 10]))]
-    text = "\n".join(i["text"] for i in kernel_ast) + "\n"
+    text = gappy(krng, [i["text"] for i in kernel_ast])
     case = {"kind": "curated", "arch": arch, "kernel_seed": kseed, "kernel": text}
     try:
         with time_limit(60):
@@ -242,7 +293,11 @@ def curated_case(arch, isa, vocab, kseed, R):
         R.exception(e, case)
         R.case()
         return
-    nt = judge(forms, dg, R, case)
+    from osaca.frontend import Frontend
+
+    nt = judge(forms, dg, R, case, frontend=Frontend(arch=arch))
+    if any(b.line_number - a.line_number > 1 for a, b in zip(forms, forms[1:])) or forms[0].line_number > 1:
+        R.count("line_number_gaps")
     R.case(digest(arch + text), nontrivial=nt)
     R.count("kind:curated")
 
@@ -272,7 +327,9 @@ def run_corpus(spec, R):
             R.exception(e, case)
             R.case()
             continue
-        nt = judge(kernel, dg, R, case)
+        from osaca.frontend import Frontend
+
+        nt = judge(kernel, dg, R, case, frontend=Frontend(arch=arch))
         R.case(digest(arch + os.path.basename(f)), nontrivial=nt)
         R.count("kind:corpus")
         R.sample({"arch": arch, "file": os.path.basename(f), "cp": sum(float(x.latency_cp) for x in dg.get_critical_path())}, limit=3)
